@@ -19,7 +19,7 @@ from .. import gen as cgen
 
 PROP = 'C16'
 TIERS = {
-    'quick': {'runs': 16000, 'chunk': 25, 'wall_cap': 80, 'min_budget': 30},
+    'quick': {'runs': 30000, 'chunk': 50, 'wall_cap': 80, 'min_budget': 30},
     'thorough': {'runs': 250000, 'chunk': 50, 'wall_cap': 850, 'min_budget': 60},
 }
 RULE = ('case = seeded circuit (ports as cells or forks, flip-flops, latches, fork chains, gates without output line, undriven signals) + logic m in {2,4,8} + c_reuse x strip_forks + 1-20 lanes + '
